@@ -3,7 +3,7 @@
     sumbool, sumor; no Extract Constant).  N / Z / nat stay the extracted inductive datatypes. *)
 From Coq Require Extraction.
 From Coq Require Import ExtrOcamlBasic.
-From HC Require Import Base.HBytes Model.Tlv8 Model.Storage Model.Framing Model.ConnRead Model.ConnWrite Model.Charac Model.Hap Gen.CatalogGen Model.Catalog Model.Ids Model.Pin Model.Config Gen.Extracted.
+From HC Require Import Base.HBytes Model.Tlv8 Model.Storage Model.Framing Model.ConnRead Model.ConnWrite Model.Charac Model.Hap Gen.CatalogGen Model.Catalog Model.Ids Model.Pin Model.Config Model.TlvStruct Gen.Extracted.
 Extraction Language OCaml.
 Set Extraction KeepSingleton.
 Separate Extraction
@@ -20,4 +20,5 @@ Separate Extraction
   CatalogGen.char_ctors CatalogGen.svc_ctors Catalog.svc_type Catalog.svc_char_types
   Ids.add_accessory Ids.instance_ids Ids.empty_container
   Pin.validate_pin Pin.xhm_of_pin Pin.xhm_decode Config.start Config.pair Config.unpair Config.discoverable_now
-  Config.same_hash_input Config.empty_disk Extracted.invalid_pins.
+  Config.same_hash_input Config.empty_disk Extracted.invalid_pins
+  TlvStruct.marshal TlvStruct.unmarshal TlvStruct.fixed_knobs TlvStruct.pinned_knobs.
